@@ -15,7 +15,13 @@ RULE = ("libraries built from sequences over a 12-block universe (entries with k
         "start_line values are NOT in library order (every pair of blocks that can tie x every pair of line values from "
         "{None, 0, 1, 2} x comment runs, sampled longer ones with shuffled / equal / missing line numbers; libraries assembled by "
         "several parse_string calls into one Library, blocks moved by remove+add, code-built blocks added to parsed ones): "
-        "ties must follow the position in the library. distinct = "
+        "ties must follow the position in the library; USER CLASSES (harness/props/userclasses.py): libraries mixing plain "
+        "blocks with instances of trivial subclasses of the five block classes (a subclass of a comment class is a comment, a "
+        "subclass of Entry/String has its key, the rank is that of the EXACT type) under orders that list, per class, the base, "
+        "the subclass, both (either way round) or neither, given as a tuple or a list (empty ones included), through a plain or a "
+        "subclassed Library (also built with blocks=None), with preserve_comments_on_top True / False / None (None is falsy: off); "
+        "block_type_order=None is not an order: it may be refused, if it is accepted the result must still be a permutation "
+        "keeping comment runs attached (oracle only wherever a subclass instance is held: the model has no such class). distinct = "
         "distinct (sequence, order, mode, times); non-trivial = at least two blocks")
 TRUSTED = ["CPython's list.sort is a stable sort (Base/StableSort.v proves the stable sorted permutation unique, so any such "
            "sort computes the model's insertion sort); tuple comparison (int, str) is lexicographic, str by code point",
@@ -27,7 +33,12 @@ COMMENTS = (6, 7)
 FIVE = [0, 1, 2, 3, 4]            # Entry, String, Preamble, ExplicitComment, ImplicitComment (wire class codes)
 CLASS_NAMES = ["Entry", "String", "Preamble", "ExplicitComment", "ImplicitComment", "ParsingFailedBlock",
                "MiddlewareErrorBlock", "DuplicateBlockKeyBlock", "DuplicateFieldKeyBlock", "Block"]
+# codes 10..14: the trivial user subclasses of classes 0..4 (userclasses.py); the model knows them only as order items that match nothing
+SUB_NAMES = ["SubEntry", "SubString", "SubPreamble", "SubExplicitComment", "SubImplicitComment"]
+LIB_NAMES = CLASS_NAMES[:]
+CLASS_NAMES = CLASS_NAMES + SUB_NAMES
 DEFAULT_ORDER = [1, 2, 0, 4, 3]
+U_CLASS = {0: 0, 1: 0, 2: 0, 11: 0, 3: 1, 4: 1, 5: 2, 6: 3, 7: 4}     # universe block -> class code, where as_sub applies
 # "equal" streams: an item is [kind, content, share]; kinds: 0 Entry, 1 String, 2 Preamble, 3 ExplicitComment, 4 ImplicitComment,
 # 5 ParsingFailedBlock (one exception object per content, so equal contents compare equal), 6 DuplicateFieldKeyBlock,
 # 7 MiddlewareErrorBlock (6, 7: equal only when the same object); share=1: reuse the object made earlier for (kind, content)
@@ -183,7 +194,99 @@ def generate(rng, tier):
             ops.append(["move", rng.randrange(4)])
         cases.append({"stream": "assembled", "input": {"ops": ops, "order": rng.choice(all_orders), "preserve": bool(rng.randint(0, 1)),
                                                         "times": rng.choice([1, 1, 1, 2])}})
+    generate_userclasses(rng, quick, maxlen, cases)
     return cases
+
+
+def uc_order(rng):
+    """Per class: neither / the base / the subclass / both (shuffled, so either way round); sometimes a failed-block class or
+    Block in between, sometimes cut short."""
+    codes = []
+    for c in FIVE:
+        m = rng.randrange(5)
+        if m in (1, 3, 4):
+            codes.append(c)
+        if m in (2, 3, 4):
+            codes.append(10 + c)
+    rng.shuffle(codes)
+    if rng.random() < 0.15:
+        codes.insert(rng.randint(0, len(codes)), rng.choice([5, 6, 7, 8, 9]))
+    if rng.random() < 0.3:
+        codes = codes[:rng.randint(0, len(codes))]
+    return codes
+
+
+def generate_userclasses(rng, quick, maxlen, cases):
+    """Instances of user subclasses among the blocks, a Library subclass, orders listing base / subclass / both / neither as tuple
+    or list (also empty), None where it is accepted.  Appended after the older streams (their cases stay what they were)."""
+    def add(stream, seq, sub, order, preserve, order_as=None, libcls=None, times=1):
+        if order_as is None:
+            order_as = rng.choice(["tuple", "list"])
+        if libcls is None:
+            libcls = rng.choice(["plain", "plain", "sub"])
+        cases.append({"stream": stream, "input": {"seq": list(seq), "sub": [int(x) for x in sub], "order": order, "order_as": order_as,
+                                                   "libcls": libcls, "preserve": preserve, "times": times}})
+
+    def modes_for(c):
+        return [[], [c], [10 + c], [c, 10 + c], [10 + c, c]]
+    # every pair of blocks x plain/subclass for each x both modes; the order runs through the five ways of listing the class of
+    # the first block (with the class of the second somewhere), and a random one
+    pair_u = [0, 1, 2, 3, 4, 5, 6, 7, 8]
+    k = 0
+    for u1 in pair_u:
+        for u2 in pair_u:
+            for f1 in ((0, 1) if u1 in U_CLASS else (0,)):
+                for f2 in ((0, 1) if u2 in U_CLASS else (0,)):
+                    for preserve in (True, False):
+                        c1, c2 = U_CLASS.get(u1, U_CLASS.get(u2, 0)), U_CLASS.get(u2, U_CLASS.get(u1, 0))
+                        o = list(modes_for(c1)[k % 5])
+                        k += 1
+                        if c2 != c1:
+                            for x in rng.choice(modes_for(c2)):
+                                o.insert(rng.randint(0, len(o)), x)
+                        ords = [o, uc_order(rng)] if quick else [o, uc_order(rng), uc_order(rng), uc_order(rng), list(rng.choice(modes_for(c1)))]
+                        for order in ords:
+                            add("uc-pairs", [u1, u2], [f1, f2], order, preserve)
+    # comment runs of plain / subclass comments above a block that has to move (or not), and trailing runs
+    runs = [(6,), (7,), (6, 7), (7, 6), (6, 6)]
+    for run in runs:
+        for flags in itertools.product((0, 1), repeat=len(run)):
+            for x in (0, 3, 5, 8):
+                for y in (1, 4, 5, 6, 7):
+                    for _ in range(1 if quick else 6):
+                        fx, fy = rng.randint(0, 1), rng.randint(0, 1)
+                        shape = rng.randrange(4)
+                        if shape == 0:
+                            seq, sub = list(run) + [x, y], list(flags) + [fx, fy]
+                        elif shape == 1:
+                            seq, sub = [x] + list(run) + [y], [fx] + list(flags) + [fy]
+                        elif shape == 2:
+                            seq, sub = list(run) + [x] + list(run) + [y], list(flags) + [fx] + [1 - f for f in flags] + [fy]
+                        else:
+                            seq, sub = [x, y] + list(run), [fx, fy] + list(flags)
+                        sub = [f if u in U_CLASS else 0 for u, f in zip(seq, sub)]
+                        add("uc-comment-runs", seq, sub, uc_order(rng), True if rng.random() < 0.8 else rng.choice([False, None]))
+    # sampled libraries: no / some / most / all blocks are subclass instances
+    n_s = 900 if quick else 40000
+    for _ in range(n_s):
+        seq = rand_seq(rng, maxlen + 1, 0 if rng.random() < 0.03 else 2)
+        p = rng.choice([0.0, 0.3, 0.3, 0.6, 1.0])
+        sub = [1 if u in U_CLASS and rng.random() < p else 0 for u in seq]
+        order = uc_order(rng) if rng.random() < 0.8 else [c if rng.random() < 0.5 else 10 + c for c in rng.sample(FIVE, rng.randint(0, 5))]
+        add("uc-sampled", seq, sub, order, rng.choice([True, True, False, False, None]), times=rng.choice([1, 1, 1, 2]))
+    # the parameters alone, on plain blocks (the model follows): Library subclass, list / tuple, empty orders, None
+    plain_seqs = [[], [0, 1], [6, 0, 1], [5, 6, 7, 3, 0, 4, 1], [0, 7]]
+    for libcls in ("plain", "sub", "plain-none", "sub-none"):
+        for order, order_as in (([], "tuple"), ([], "list"), (DEFAULT_ORDER, "list"), (DEFAULT_ORDER, "tuple"), ([10, 11, 12, 13, 14], "list"),
+                                (uc_order(rng), "list"), (uc_order(rng), "tuple")):
+            for preserve in (True, False, None):
+                for seq in ([[]] if libcls.endswith("none") else plain_seqs + [rand_seq(rng, maxlen, 2)]):
+                    add("uc-parameters", seq, [0] * len(seq), list(order), preserve, order_as, libcls, times=rng.choice([1, 1, 2]))
+    # block_type_order=None: not a block-type order (refused today); if a tree accepts it, what does not depend on the order must hold
+    for _ in range(24 if quick else 400):
+        seq = rand_seq(rng, maxlen, 2)
+        add("uc-order-none", seq, [1 if u in U_CLASS and rng.random() < 0.3 else 0 for u in seq], None, rng.choice([True, False, None]),
+            "none", times=1)
 
 
 def shrink(case):
@@ -194,6 +297,24 @@ def shrink(case):
         d = dict(inp)
         d.update(kw)
         out.append({"stream": "shrink", "input": d})
+    if "sub" in inp:
+        seq, sub, order = inp["seq"], inp["sub"], inp["order"]
+        for i in range(len(seq)):
+            mk(seq=seq[:i] + seq[i + 1:], sub=sub[:i] + sub[i + 1:])
+        for i in range(len(sub)):
+            if sub[i]:
+                mk(sub=sub[:i] + [0] + sub[i + 1:])
+        for i in range(len(order or [])):
+            mk(order=order[:i] + order[i + 1:])
+        if inp["times"] > 1:
+            mk(times=1)
+        if inp["libcls"] == "sub":
+            mk(libcls="plain")
+        if inp["order_as"] == "list":
+            mk(order_as="tuple")
+        if inp["preserve"] is None:
+            mk(preserve=False)
+        return out
     if "items" in inp:
         items, order = inp["items"], inp["order"]
         for i in range(len(items)):
@@ -302,12 +423,69 @@ def cname(b):
     return type(b).__name__
 
 
+def base_name(b):
+    """The library's class a block is an instance of (a user subclass of Entry IS an entry); the exact class for its own."""
+    for k in type(b).__mro__:
+        if k.__name__ in LIB_NAMES and k.__module__ == "bibtexparser.model":
+            return k.__name__
+    return type(b).__name__
+
+
 def is_comment(b):
-    return cname(b) in ("ExplicitComment", "ImplicitComment")
+    return base_name(b) in ("ExplicitComment", "ImplicitComment")
 
 
 def key_of(b):
-    return b.key if cname(b) in ("Entry", "String", "DuplicateBlockKeyBlock") else ""
+    return b.key if base_name(b) in ("Entry", "String", "DuplicateBlockKeyBlock") else ""
+
+
+def has_sub(b):
+    """Is b, or a block it wraps, an instance of a user subclass (which the model cannot represent)?"""
+    if b is None:
+        return False
+    if cname(b) == "DuplicateBlockKeyBlock":
+        return has_sub(b.previous_block) or has_sub(b.ignore_error_block)
+    return cname(b) not in LIB_NAMES
+
+
+def enc_u(b):
+    """enc.enc_block extended to instances of user subclasses (alone or wrapped as a duplicate): the exact class and the
+    encoding of an instance of the library class with the same attributes.  Identical to enc.enc_block on library classes."""
+    import enc
+    n = cname(b)
+    if n in SUB_NAMES:
+        base = [k for k in type(b).__mro__ if k.__name__ == base_name(b)][0]
+        p = base.__new__(base)
+        p.__dict__.update(b.__dict__)
+        return [100 + SUB_NAMES.index(n), enc.enc_block(p)]
+    if n == "DuplicateBlockKeyBlock" and has_sub(b):
+        return [enc.B_DUPKEY, enc.enc_hdr(b), enc.enc_str(b.key), enc_u(b.previous_block), enc_u(b.ignore_error_block)]
+    return enc.enc_block(b)
+
+
+def arrangement(before, names, preserve, exact=True, subkeys=True, subcomments=True):
+    """Positions of the input blocks in THE stable arrangement by (type rank, key) (it is unique).  The three switches give the
+    arrangement a tree would produce that ranked subclass instances as their base class / ignored their keys / did not take
+    them for comments: where it differs from the right one, the case can tell such a tree from a correct one."""
+    def isub(b):
+        return cname(b) in SUB_NAMES
+
+    def com(b):
+        return is_comment(b) and (subcomments or not isub(b))
+
+    def sk(u):
+        b = before[u[-1]]
+        c = cname(b) if exact else base_name(b)
+        return (names.index(c) if c in names else len(names), key_of(b) if (subkeys or not isub(b)) else "")
+    units, cur = [], []
+    for i, b in enumerate(before):
+        cur.append(i)
+        if not (preserve and com(b)):
+            units.append(cur)
+            cur = []
+    if cur:
+        units.append(cur)
+    return [i for u in sorted(units, key=sk) for i in u]
 
 
 def units_of(blocks, preserve):
@@ -330,17 +508,17 @@ def units_of(blocks, preserve):
 
 def check_sort(before, before_enc, out_blocks, order, preserve, tampered):
     """Property text on one application. before: input blocks (unchanged objects), out_blocks: result blocks."""
-    import enc
-    names = [CLASS_NAMES[c] for c in order]
+    names = [CLASS_NAMES[c] for c in order] if order is not None else None      # None: only what holds under every order
     outb = list(out_blocks)
     if tampered:
         # a library whose keys were edited may hold two live blocks with one key; rebuilding wraps the later one: look through
         in_cls = {b.start_line: cname(b) for b in before}
         outb = [b.ignore_error_block if cname(b) == "DuplicateBlockKeyBlock" and in_cls.get(b.start_line) in ("Entry", "String") else b
                 for b in outb]
-    out_enc = [json.dumps(enc.enc_block(b)) for b in outb]
+    out_enc = [json.dumps(enc_u(b)) for b in outb]
     if sorted(out_enc) != sorted(before_enc):
-        return "blocks lost, duplicated or altered: %r -> %r" % ([b.start_line for b in before], [b.start_line for b in outb])
+        return "blocks lost, duplicated or altered: %r -> %r" % ([(cname(b), b.start_line) for b in before],
+                                                                [(cname(b), b.start_line) for b in outb])
     uid_out = [b.start_line for b in outb]
     us = units_of(before, preserve)
     by_first = {u[0].start_line: (k, u) for k, u in enumerate(us)}
@@ -359,7 +537,7 @@ def check_sort(before, before_enc, out_blocks, order, preserve, tampered):
         main = us[k][-1]
         c = cname(main)
         return (names.index(c) if c in names else len(names), key_of(main))
-    for x, y in zip(seq, seq[1:]):
+    for x, y in zip(seq, seq[1:] if names is not None else []):
         if sk(x) > sk(y):
             return "not ordered by (type rank, key): %r before %r in %r" % (sk(x), sk(y), uid_out)
         if sk(x) == sk(y) and x > y:
@@ -481,6 +659,126 @@ def check_sort_by_value(before, before_enc, out_blocks, order, preserve):
         " of blocks with their comment runs" if preserve else "", show_in, show_out, [nm(e) for e in want])
 
 
+def impl_uc(case):
+    """User classes: subclass instances among the blocks, Library subclass, order as tuple / list / None, preserve None."""
+    import enc
+    import implutil
+    import bibtexparser.model as M
+    from bibtexparser.library import Library
+    from bibtexparser.middlewares import SortBlocksByTypeAndKeyMiddleware
+    from . import userclasses
+    uc = userclasses.get()
+    inp = case["input"]
+    seq, sub, order, preserve, times = inp["seq"], inp["sub"], inp["order"], inp["preserve"], inp["times"]
+    given = [make_block(u, i) for i, u in enumerate(seq)]
+    given = [uc.as_sub(b) if f else b for b, f in zip(given, sub)]
+    libcls = uc.SubLibrary if inp["libcls"].startswith("sub") else Library
+    lib = libcls(None) if inp["libcls"].endswith("none") and not given else libcls(given)
+    on = bool(preserve)                      # None is falsy: comment preservation is not on
+    if order is None:
+        arg = None
+    else:
+        arg = [getattr(M, CLASS_NAMES[c]) if c < 10 else getattr(uc, CLASS_NAMES[c]) for c in order]
+        arg = tuple(arg) if inp["order_as"] == "tuple" else arg
+    modelled = order is not None and not any(has_sub(b) for b in lib.blocks)
+    rec = {"sx_in": [50, times, int(on), list(order), [enc.enc_block(b) for b in lib.blocks]] if modelled else None, "sx_out": None,
+           "key": json.dumps(inp, sort_keys=True), "nontrivial": len(seq) >= 2, "tags": []}
+    tags = rec["tags"]
+    n_sub = sum(1 for b in lib.blocks if has_sub(b))
+    tags.append("uc:subclass-instances=" + ("none" if n_sub == 0 else "all" if n_sub == len(lib.blocks) else "some"))
+    tags.append("uc:model-compared" if modelled else "uc:oracle-only")
+    if libcls is not Library:
+        tags.append("uc:library-subclass")
+    if inp["libcls"].endswith("none") and not given:
+        tags.append("uc:library-blocks-none")
+    if preserve is None:
+        tags.append("uc:preserve-none")
+    if order is not None:
+        tags.append("uc:order-as-" + inp["order_as"] + ("-empty" if not order else ""))
+    mw = implutil.guarded(lambda: SortBlocksByTypeAndKeyMiddleware(block_type_order=arg, preserve_comments_on_top=preserve))
+    if mw[0] == "exc":
+        if order is None:                    # None is not a block-type order: refusing it is no concern of the property
+            tags.append("uc:order-none-refused")
+            rec["oracle"] = {"ok": True, "detail": ""}
+            rec["summary"] = "constructor raised " + mw[2]
+            return rec
+        rec["sx_out"] = implutil.r_exc(mw[1]) if modelled else None
+        rec["oracle"] = {"ok": False, "detail": "constructor raised %s for order %r given as %s" % (
+            mw[2], [CLASS_NAMES[c] for c in order], inp["order_as"])}
+        rec["summary"] = "constructor raised " + mw[2]
+        return rec
+    mw = mw[1]
+    complaints = []
+    cur = lib
+    names = [CLASS_NAMES[c] for c in order] if order is not None else None
+    for t in range(times):
+        objs = list(cur.blocks)
+        before_enc = [json.dumps(enc_u(b)) for b in objs]
+        r = implutil.guarded(lambda: mw.transform(cur))
+        if r[0] == "exc":
+            if order is None:
+                tags.append("uc:order-none-refused")
+                rec["oracle"] = {"ok": True, "detail": ""}
+                rec["summary"] = "transform raised " + r[2]
+                return rec
+            rec["sx_out"] = implutil.r_exc(r[1]) if modelled else None
+            rec["oracle"] = {"ok": False, "detail": "transform raised %s" % r[2]}
+            rec["summary"] = "raised " + r[2]
+            return rec
+        out = r[1]
+        if len(cur.blocks) != len(objs) or any(a is not b for a, b in zip(cur.blocks, objs)) \
+                or [json.dumps(enc_u(b)) for b in cur.blocks] != before_enc:
+            complaints.append("the input library was changed")
+        if out is cur:
+            complaints.append("the input library object was returned")
+        if not hasattr(out, "blocks"):
+            complaints.append("the result is no library: %s" % type(out).__name__)
+            break
+        c = check_sort(objs, before_enc, out.blocks, order, on, False)
+        if not c and names is not None:
+            want = [objs[i].start_line for i in arrangement(objs, names, on)]
+            got = [b.start_line for b in out.blocks]
+            if got != want:
+                c = "not the stable arrangement by (exact type rank, key): %r, expected %r" % (got, want)
+        if c:
+            complaints.append(("pass %d: " % (t + 1) if times > 1 else "") + c)
+        if t == 0 and names is not None:
+            right = arrangement(objs, names, on)
+            if right != list(range(len(objs))):
+                tags.append("uc:sorting-moves-a-block")
+            if n_sub:
+                if arrangement(objs, names, on, exact=False) != right:
+                    tags.append("uc:decided-by-exact-type-of-a-subclass-instance")
+                if arrangement(objs, names, on, subkeys=False) != right:
+                    tags.append("uc:decided-by-key-of-a-subclass-instance")
+                if on and arrangement(objs, names, on, subcomments=False) != right:
+                    tags.append("uc:decided-by-a-subclass-comment-being-a-comment")
+                if arrangement(objs, names, not on) != right and preserve is None:
+                    tags.append("uc:decided-by-preserve-none-being-off")
+            elif preserve is None and arrangement(objs, names, not on) != right:
+                tags.append("uc:decided-by-preserve-none-being-off")
+            if arrangement(objs, [CLASS_NAMES[c] for c in DEFAULT_ORDER], on) != right and not order:
+                tags.append("uc:decided-by-the-empty-order-not-being-the-default")
+            # how the order lists the classes of the subclass instances present
+            for k in range(5):
+                if any(cname(b) == SUB_NAMES[k] for b in objs):
+                    tags.append("uc:order-lists-" + {(0, 0): "neither", (1, 0): "base-only", (0, 1): "subclass-only", (1, 1): "base-and-subclass"}[
+                        (int(k in order), int(10 + k in order))] + "-for-a-subclass-instance")
+        cur = out
+    if order is None:
+        tags.append("uc:order-none-accepted")
+    rec["sx_out"] = implutil.r_ok([enc.enc_block(b) for b in cur.blocks]) if modelled else None
+    rec["oracle"] = {"ok": not complaints, "detail": "; ".join(complaints)[:600]}
+    rec["summary"] = repr([(cname(b)[:9], b.start_line) for b in cur.blocks])[:240]
+    tags.append("len=%d" % len(seq))
+    tags.append("preserve" if on else "no-preserve")
+    if order is not None:
+        tags.append("order-len=%d" % len(order))
+    if any(cname(b) == "DuplicateBlockKeyBlock" for b in lib.blocks):
+        tags.append("has-duplicate-key-block")
+    return rec
+
+
 def impl(case):
     import enc
     import implutil
@@ -488,6 +786,8 @@ def impl(case):
     from bibtexparser.library import Library
     from bibtexparser.middlewares import SortBlocksByTypeAndKeyMiddleware
     inp = case["input"]
+    if "sub" in inp:
+        return impl_uc(case)
     by_value = "items" in inp or "lines" in inp or "ops" in inp
     eq_stream = "items" in inp
     notes = []
